@@ -70,6 +70,23 @@ def thorough(prop: str, root: str, rc: int, evidence_dir) -> int:
             print(f"ANALYSIS-ERROR property={prop} rule=E1 site=models reason=field-table extractor disagrees with pydantic: {text}")
             return 2 if rc == 0 else rc
     try:
+        from selftest.engine_pairs import run as engine_pairs
+        fails, n_eq, n_ne = engine_pairs(root)
+        print(f"[{prop}] engine self-test: {n_eq} pairs of equivalent spellings identified, {n_ne} different pairs kept apart"
+              + (f" -- {len(fails)} FAILED" if fails else ""))
+        for f_ in fails:
+            print(f"  ENGINE-SELFTEST-FAILURE {f_[:300]}")
+        if evidence_dir and os.path.exists(os.path.join(evidence_dir, f"{prop}.json")):
+            pth = os.path.join(evidence_dir, f"{prop}.json")
+            ev = json.load(open(pth))
+            ev["coverage"]["engine_selftest"] = {"equivalent_pairs": n_eq, "different_pairs": n_ne, "failures": fails}
+            json.dump(ev, open(pth, "w"), indent=1, default=str)
+        if fails:
+            print(f"ANALYSIS-ERROR property={prop} rule=E4 site=engine reason=summary normal forms broken ({len(fails)} pairs)")
+            return 2 if rc == 0 else rc
+    except ModuleNotFoundError:
+        pass
+    try:
         from selftest.harness import run_catalogue
     except ModuleNotFoundError:
         return rc
